@@ -221,6 +221,46 @@ def check_user_functions(rec):
                               f'{name} with result sort {sexpr(res)}')
 
 
+def check_replacement_variables(rec):
+    """C16, second sentence: a replacement by an existing variable 'of the
+    same sort' is well-sorted.  A symbol that takes arguments is no variable:
+    its bare name is not a term, whatever its result sort."""
+    from ddsmt import mutators_core
+    B4 = ['_', 'BitVec', '4']
+    for S, args, other in (('Int', ['Int'], '0'), ('Bool', ['Int', 'Int'],
+                           'true'), (B4, [B4], '#x0'), ('Real', ['Bool'],
+                                                         '1.5')):
+        script = [['declare-fun', 'fn', args, S],
+                  ['define-fun', 'dfn', [['p', a] for a in args][:1], S,
+                   other],
+                  ['declare-const', 'va', S], ['declare-const', 'vb', S],
+                  ['declare-fun', 'nullary', [], S],
+                  ['assert', ['=', 'va', ['ite', 'true', 'vb', 'va']]]]
+        exprs = [build(x) for x in script]
+        smtlib.collect_information(exprs)
+        target = exprs[-1][1][2]  # (ite true vb va): sort S
+        m = mutators_core.ReplaceByVariable()
+        case = {'script': ' '.join(sexpr(x) for x in script),
+                'node': sexpr(plain(target))}
+        rec.case(('replace-by-variable', sexpr(S)), case)
+        try:
+            props = list(m.mutations(target)) if m.filter(target) else []
+        except Exception as e:  # noqa
+            rec.violation('C16/native/replace-by-variable/raises-nothing',
+                          case, f'{type(e).__name__}: {e}')
+            continue
+        got = [plain(r) for p in props for r in p.substs.values()]
+        bad = [g for g in got if g in ('fn', 'dfn')]
+        if bad:
+            rec.violation(
+                'C16/native/replace-by-variable/replacement-is-a-variable',
+                case, f'a term of sort {sexpr(S)} is replaced by the bare '
+                f'name of a function that takes arguments: {bad}')
+        if 'vb' not in got and 'va' not in got:
+            rec.violation('C16/native/replace-by-variable/vacuous', case,
+                          f'no variable proposed at all: {got}')
+
+
 def main():
     nint = int(ARGS[0])
     rec = Recorder('C16/native/typed-terms',
@@ -276,6 +316,7 @@ def main():
                            'no bit-vector sort'))
     check_datatypes(rec)
     check_user_functions(rec)
+    check_replacement_variables(rec)
     if OPAQUE['n'] == 0 or OPAQUE['unknown'] != OPAQUE['n']:
         # not a property violation: the harness lost its unknown operands
         print(f'CHECKER-PROBLEM: {OPAQUE["unknown"]} of {OPAQUE["n"]} opaque '
